@@ -91,6 +91,21 @@ def run(ctx: Ctx):
         pool += pl
         ctx.count("programs_generated", st["generated"])
     entries = [(src, args, "gen") for ast, src, args, r in pool]
+    bounds = [0x00, 0x01, 0x09, 0x1f, 0x20, 0x41, 0x5a, 0x61, 0x7a, 0x7e, 0x7f, 0x80, 0x81, 0xbf, 0xc0, 0xfd, 0xfe, 0xff]
+    for i in range(10 if quick else 80):
+        parts = []
+        for _ in range(rng.choice([1, 2, 3])):
+            lo = rng.choice(bounds)
+            hi = min(255, lo + rng.choice([0, 1, 2, 3, 4, 5, 6, 7, 30, 127, 255]))
+            if rng.random() < 0.4:
+                hi = 255
+            if rng.random() < 0.2:
+                lo = 0
+            parts.append("%02x-%02x" % (lo, hi) if hi > lo else "%02x" % lo)
+        inv = "^" if rng.random() < 0.25 else ""
+        src = "hook h0;\nhook h1;\nparser {\n loop {\n  case {\n   b/[%s%s]/ -> {\n    h0();\n   }\n   else -> {\n    h1();\n    /./;\n   }\n  }\n }\n}\n" % (inv, " ".join(parts))
+        args = [rng.choice(["-O2", "-O3", "-O1"])] + rng.choice([[], ["--collapsed-range-length", str(rng.choice([1, 2, 3, 4, 5, 6]))], ["-fcollapse-transition-ranges"]]) + ["-findirect-start-ptr"]
+        entries.append((src, args, "ranges"))
     for fn, src, args, seeds in work.corpus():
         b = fn.rsplit("/", 1)[-1]
         if b in ("gtfs-realtime.nmfu", "ttc_rdf.nmfu", "http.nmfu") and quick:
